@@ -29,14 +29,10 @@
      C05_tde_stream_generic           the same for ANY token source whose next / skip_container /
                                       read_expect_equals are strict and consume tokens, fuel
                                       2 * tokens + shape_size + 1
-   NOT proved (named gaps):
-     * text TAPE path (TextDeTape.de / twalk on parser-produced tapes): not attempted here; the panic
-       sites are SITE_TOK 9100 (`tokens[i]`), the harness `expect` 9101 and finish 9001/9002; discharging
-       9100 needs the object grammar of C17 (key [op] value) on every index the DOM readers compute.
-     * tape path (deser_tape): needs, beyond C06_bin tape_wf, two facts about parse_opt's output that no
-       existing theorem provides: (i) the top level is a sequence of key-value PAIRS (the release-only
-       `tokens[value_ind]` site of BinaryMap::next_key_seed, Panic 9206 in the model, is reached when a
-       key is the last token of the tape), (ii) payloads are real (i32 range, bytes < 256).
+   The two TAPE walks (text TextDeTape.de / twalk on parser-produced tapes, binary deser_tape on
+   parse_opt's output) are proved in Props/C05_tapewalks.v (C05_tde_tape_never_crashes,
+   C05_bde_tape_never_crashes and the parser invariants they rest on).
+   Remaining named gap:
      * the text walk's decoder hypothesis quantifies over ALL raw scalars (also lists with elements >= 256,
        which no reader produces); C05_decoders_return_bytes gives it for real bytes only. *)
 From JV.proofs Require Import SwarLanes NoCrashWalk NoCrashBinDe BinDeSpecProofs NoCrashTextDe NoCrashDecode.
